@@ -18,6 +18,7 @@
 extern int vg_r, vg_w, vg_b, vh_r, vh_w, vk_r, vk_w, vg_i, vg_j;
 
 #define VP_BITOF(x, i) ((int)(((x) >> (i)) & 1))
+#define VP_CLAMP(x, lo, hi) ((x) < (lo) ? (lo) : ((x) > (hi) ? (hi) : (x)))
 #define VP_ROWOK(M, r) ((r) >= 0 && (r) < (M)->nrows)
 #define VP_COLOK(M, c) ((c) >= 0 && (c) < (M)->ncols)
 #define VP_NONEMPTY(M) ((M)->nrows >= 1 && (M)->ncols >= 1)
@@ -107,15 +108,24 @@ extern int vg_r, vg_w, vg_b, vh_r, vh_w, vk_r, vk_w, vg_i, vg_j;
 #define ENS2_mzd_clear_bits(M, x, y, n) VP_IMP(!VP_GCOL_IN(x, y, n), VP_BITOF(VP_G(M), vg_b) == VP_BITOF(VP_G0(M), vg_b))
 
 /* ------------------------------------------------------------------ mzd_combine_even(_in_place) / mzd_combine
- * raw word kernels: for t in [0, A->width - a_sb): C[c_row][c_sb+t] = A[a_row][a_sb+t] ^ B[b_row][b_sb+t]
- * (whole words, no masking -- the callers' responsibility); every other word unchanged.
- * Pre-conditions from the call sites: the three word ranges lie inside the rowstride of their rows. */
+ * word kernels behind every row addition: with N = A->width - a_sb words,
+ *   C[c_row] word c_sb+t = A[a_row] word a_sb+t ^ B[b_row] word b_sb+t       for t in [0, N),
+ * the last of them (t == N-1) restricted to the cells of C (C->high_bitmask); every other bit unchanged.
+ * Pre-conditions from the call sites: the range ends at C's last word; the B range lies inside its row. */
 #define VP_CMB_N(A, a_sb) ((A)->width - (a_sb))
-#define VP_CMB_HIT(C, c_row, c_sb, A, a_sb) (vg_r == (c_row) && vg_w >= (c_sb) && vg_w < (c_sb) + VP_CMB_N(A, a_sb))
+#define VP_CMB_T(c_sb) (vg_w - (c_sb))
+#define VP_CMB_TC(A, a_sb, c_sb) (VP_CMB_T(c_sb) < 0 ? 0 : (VP_CMB_T(c_sb) >= VP_CMB_N(A, a_sb) ? VP_CMB_N(A, a_sb) - 1 : VP_CMB_T(c_sb)))
+#define VP_CMB_HIT(C, c_row, c_sb, A, a_sb) (vg_r == (c_row) && VP_CMB_T(c_sb) >= 0 && VP_CMB_T(c_sb) < VP_CMB_N(A, a_sb))
+#define VP_CMB_MASK(C, c_sb, A, a_sb) (VP_CMB_T(c_sb) == VP_CMB_N(A, a_sb) - 1 ? (vp_word)(C)->high_bitmask : VP_ONES)
 #define REQ_mzd_combine_even(C, c_row, c_sb, A, a_row, a_sb, B, b_row, b_sb)                       \
   (VP_HDR(C) && VP_HDR(A) && VP_HDR(B) && VP_ROWOK(C, c_row) && VP_ROWOK(A, a_row) && VP_ROWOK(B, b_row) && (c_sb) >= 0 && (a_sb) >= 0 &&     \
-   (b_sb) >= 0 && VP_CMB_N(A, a_sb) >= 1 && (c_sb) + VP_CMB_N(A, a_sb) <= (C)->rowstride && (b_sb) + VP_CMB_N(A, a_sb) <= (B)->rowstride &&   \
+   (b_sb) >= 0 && VP_CMB_N(A, a_sb) >= 1 && (c_sb) + VP_CMB_N(A, a_sb) == (C)->width && (b_sb) + VP_CMB_N(A, a_sb) <= (B)->width &&           \
    VP_GHOST_OK(C, vg_r, vg_w))
+#define ENS1_mzd_combine_even(C, c_row, c_sb, A, a_row, a_sb, B, b_row, b_sb)                      \
+  VP_IMP(VP_CMB_HIT(C, c_row, c_sb, A, a_sb),                                                      \
+         VP_G(C) == ((VP_G0(C) & ~VP_CMB_MASK(C, c_sb, A, a_sb)) |                                 \
+                     ((VP_W0(A, a_row, (a_sb) + VP_CMB_TC(A, a_sb, c_sb)) ^ VP_W0(B, b_row, (b_sb) + VP_CMB_TC(A, a_sb, c_sb))) & VP_CMB_MASK(C, c_sb, A, a_sb))))
+#define ENS2_mzd_combine_even(C, c_row, c_sb, A, a_row, a_sb, B, b_row, b_sb) VP_IMP(!VP_CMB_HIT(C, c_row, c_sb, A, a_sb), VP_G(C) == VP_G0(C))
 
 /* ------------------------------------------------------------------ mzd_copy_row
  * cells [0, A->ncols) of row i of B := row j of A; everything else unchanged (B->ncols >= A->ncols). */
@@ -123,7 +133,7 @@ extern int vg_r, vg_w, vg_b, vh_r, vh_w, vk_r, vk_w, vg_i, vg_j;
   (VP_HDR(B) && VP_HDR(A) && VP_NONEMPTY(A) && VP_ROWOK(B, i) && VP_ROWOK(A, j) && (B)->ncols >= (A)->ncols && VP_GHOST_OK(B, vg_r, vg_w) &&    \
    VP_GHOST_OK(A, vh_r, vh_w))
 #define ENS1_mzd_copy_row(B, i, A, j)                                                              \
-  VP_IMP(vg_r == (i), VP_G(B) == ((VP_G0(B) & ~VP_CELLMASK(A, vg_w)) | (vg_w >= 0 && vg_w < (A)->width ? VP_W0(A, j, vg_w < 0 ? 0 : vg_w) & VP_CELLMASK(A, vg_w) : 0)))
+  VP_IMP(vg_r == (i), VP_G(B) == ((VP_G0(B) & ~VP_CELLMASK(A, vg_w)) | (VP_W0(A, j, VP_CLAMP(vg_w, 0, (A)->width - 1)) & VP_CELLMASK(A, vg_w))))
 #define ENS2_mzd_copy_row(B, i, A, j) VP_IMP(vg_r != (i), VP_G(B) == VP_G0(B))
 
 #ifndef VP_NATIVE
@@ -202,6 +212,26 @@ __CPROVER_requires(REQ_mzd_clear_bits(M, x, y, n))
 __CPROVER_assigns(__CPROVER_object_whole(M->data))
 __CPROVER_ensures(ENS1_mzd_clear_bits(M, x, y, n))
 __CPROVER_ensures(ENS2_mzd_clear_bits(M, x, y, n));
+
+static inline void mzd_combine_even(mzd_t *C, rci_t const c_row, wi_t const c_startblock, mzd_t const *A, rci_t const a_row, wi_t const a_startblock,
+                                    mzd_t const *B, rci_t const b_row, wi_t const b_startblock)
+__CPROVER_requires(REQ_mzd_combine_even(C, c_row, c_startblock, A, a_row, a_startblock, B, b_row, b_startblock))
+__CPROVER_assigns(__CPROVER_object_whole(C->data))
+__CPROVER_ensures(ENS1_mzd_combine_even(C, c_row, c_startblock, A, a_row, a_startblock, B, b_row, b_startblock))
+__CPROVER_ensures(ENS2_mzd_combine_even(C, c_row, c_startblock, A, a_row, a_startblock, B, b_row, b_startblock));
+
+static inline void mzd_combine_even_in_place(mzd_t *A, rci_t const a_row, wi_t const a_startblock, mzd_t const *B, rci_t const b_row, wi_t const b_startblock)
+__CPROVER_requires(REQ_mzd_combine_even(A, a_row, a_startblock, A, a_row, a_startblock, B, b_row, b_startblock))
+__CPROVER_assigns(__CPROVER_object_whole(A->data))
+__CPROVER_ensures(ENS1_mzd_combine_even(A, a_row, a_startblock, A, a_row, a_startblock, B, b_row, b_startblock))
+__CPROVER_ensures(ENS2_mzd_combine_even(A, a_row, a_startblock, A, a_row, a_startblock, B, b_row, b_startblock));
+
+static inline void mzd_combine(mzd_t *C, rci_t const c_row, wi_t const c_startblock, mzd_t const *A, rci_t const a_row, wi_t const a_startblock,
+                               mzd_t const *B, rci_t const b_row, wi_t const b_startblock)
+__CPROVER_requires(REQ_mzd_combine_even(C, c_row, c_startblock, A, a_row, a_startblock, B, b_row, b_startblock))
+__CPROVER_assigns(__CPROVER_object_whole(C->data))
+__CPROVER_ensures(ENS1_mzd_combine_even(C, c_row, c_startblock, A, a_row, a_startblock, B, b_row, b_startblock))
+__CPROVER_ensures(ENS2_mzd_combine_even(C, c_row, c_startblock, A, a_row, a_startblock, B, b_row, b_startblock));
 
 void mzd_copy_row(mzd_t *B, rci_t i, mzd_t const *A, rci_t j)
 __CPROVER_requires(REQ_mzd_copy_row(B, i, A, j))
